@@ -82,6 +82,9 @@ type c06run struct {
 	keep     int
 }
 
+// slowVals: simulated milliseconds a read of the device may take (just past plausible timeouts).
+var slowVals = []int64{150, 1100, 2500, 5100, 10100, 31000, 61000, 301000, 3601000}
+
 func fnv(h uint64, v uint64) uint64 { return (h ^ v) * 0x100000001b3 }
 
 // judge applies the oracle of DESIGN.md 3.3. It returns "" when the case is fine.
@@ -138,6 +141,11 @@ func (r *c06run) judge(c *C06Case, o *plan.Outcome, relaxFam bool) (class, detai
 	}
 	if d.Stalls > 0 {
 		r.res.Relaxed["ii_gave_up_after_stall"]++
+		return "", ""
+	}
+	if d.SlowMs > 0 {
+		// reads took simulated seconds to hours: a tree with a deadline of its own may give up - with an error and no mnemonic
+		r.res.Relaxed["iv_gave_up_on_a_slow_source"]++
 		return "", ""
 	}
 	if d.Pos >= need {
@@ -217,7 +225,13 @@ func (r *c06run) one(c C06Case) {
 	if d.Stalls >= 100 {
 		res.Probes["hundred_stalls"]++
 	}
-	relaxFam := c.Family == "boundary" || c.Family == "stalls" || c.Family == "combo"
+	if d.SlowMs > 0 {
+		res.Fired["slow-read (simulated clock)"]++
+	}
+	if d.SlowMs >= 60000 {
+		res.Probes["a_read_took_a_simulated_minute_or_more"]++
+	}
+	relaxFam := c.Family == "boundary" || c.Family == "stalls" || c.Family == "combo" || c.Family == "slow"
 	for _, ch := range []byte(o.Out + "|" + o.Err + "|" + o.Panic) {
 		h = fnv(h, uint64(ch))
 	}
@@ -433,6 +447,34 @@ func RunC06(job *C06Job, d *dev.Dev) *C06Result {
 				}
 			}
 		}
+	case "slow":
+		// the clock seam: reads that take simulated time. p bytes arrive at once (or one by one), then one read of one
+		// byte takes J ms, then the rest arrives; or every byte takes J/need ms (a trickling source)
+		for _, n := range needs {
+			need := n + n/3
+			for _, j := range slowVals {
+				for p := 0; p < need; p++ {
+					var a, b []plan.DevStep
+					if p > 0 {
+						a = append(a, plan.DevStep{D: p})
+						b = append(b, bytewise(p)...)
+					}
+					a = append(a, plan.DevStep{D: 1, J: j})
+					b = append(b, plan.DevStep{D: 0, J: j}, plan.DevStep{D: 1})
+					if need-p-1 > 0 {
+						a = append(a, plan.DevStep{D: need - p - 1})
+						b = append(b, bytewise(need-p-1)...)
+					}
+					emit(n, "slow", a)
+					emit(n, "slow", b)
+				}
+				var t []plan.DevStep
+				for i := 0; i < need; i++ {
+					t = append(t, plan.DevStep{D: 1, J: j/int64(need) + 1})
+				}
+				emit(n, "slow", t)
+			}
+		}
 	case "combo":
 		for i := 0; i < job.Count; i++ {
 			n := needs[rng.Intn(5)]
@@ -447,7 +489,11 @@ func RunC06(job *C06Job, d *dev.Dev) *C06Result {
 					s = append(s, plan.DevStep{D: k})
 					total += k
 				case x < 7:
-					s = append(s, plan.DevStep{D: 0})
+					st := plan.DevStep{D: 0}
+					if rng.Intn(3) == 0 {
+						st.J = slowVals[rng.Intn(len(slowVals))]
+					}
+					s = append(s, st)
 				case x < 9:
 					s = append(s, plan.DevStep{D: 0, E: errKinds[rng.Intn(len(errKinds))]})
 				default:
